@@ -535,7 +535,10 @@ func (sf *SnowflakeProxy) runSession(sid string) {
 		if inerr := pc.Close(); inerr != nil {
 			log.Printf("error calling pc.Close: %v", inerr)
 		}
-		tokens.ret()
+		// The client may already have the answer (only the broker's
+		// reply to us was lost) and have opened the data channel; its
+		// handler then releases the token as well.
+		dataChannelAdaptor.release.Do(tokens.ret)
 		return
 	}
 	// Set a timeout on peerconnection. If the connection state has not
